@@ -22,7 +22,7 @@ SHARD = 24
 SIZES = {'quick': 900, 'thorough': 6000, 'search': 1500}
 TRACE = 24
 _R4 = "; round-four features, each in about 1/3 of the problems and from its own forked random stream: 2-4 extra jobs with REPLACEMENT tasks (also mixed with pickups / services / shipments), REQUIRED breaks (exact time or offset interval, 1-2 per shift, on shifts without optional breaks and reloads; documents show them as break activities inside a stop or as stops without location), VICINITY CLUSTERING (plan.clustering with the vehicles' profile, visiting continue / return, serving original with parking 0-10, thresholds taken from the matrix, 3-5 extra single-task jobs at a pair of near locations; not together with breaks, reloads, errorCodes or general routing data)"
-_R5 = '; round-five features, each from its own forked random stream: RECHARGE STATIONS in about 1/3 of the problems without required breaks / clustering (recharges.maxDistance = the length of a random 2-4 leg walk from the shift start, so that tours exactly at the limit occur; 1-3 stations per shift with location, duration 0-15, sometimes a time window / tag; combined with reloads, optional breaks, capacity dimensions, errorCodes, general routing data), SHARED RELOAD RESOURCES in about 2/3 of the problems with reloads (fleet.resources with 1-2 small capacity vectors, resourceId on about 3/4 of the reloads of all shifts)'
+_R5 = '; round-five features, each from its own forked random stream: RECHARGE STATIONS in about 1/3 of the problems without required breaks / clustering (recharges.maxDistance = the length of a random 2-4 leg walk from the shift start, so that tours exactly at the limit occur; 1-3 stations per shift with location, duration 0-15, sometimes a time window / tag; combined with reloads, optional breaks, capacity dimensions, errorCodes, general routing data), SHARED RELOAD RESOURCES in about 2/3 of the problems with reloads (fleet.resources with 1-2 small capacity vectors, resourceId on about 3/4 of the reloads of all shifts), REQUIRED breaks on shifts that also have reloads in about half of the remaining problems with reloads (start.latest = start.earliest)'
 RULE = ('cases: generated pragmatic problems (3-10 jobs: deliveries, pickups, services, shipments, 2-pickup and 2-delivery '
         'multi jobs; 1-2 places / windows, tags; 1-3 vehicle types x 1-2 ids x 1-2 shifts, open and closed ends; capacity, '
         'skills, limits; metric and non-metric integer matrices) x 3 configurations each (max_generations 0-20, thread pools '
@@ -263,8 +263,8 @@ MANIFEST_TEXT = ('Machine-checked proof (Coq, no axioms) plus a verified end-to-
                  'remove_empty_routes, Solution::from) every job has exactly one home after ANY history, so what reaches the writer is an '
                  'exact partition. The checker is run inside Coq on every document the real solver returns for generated problems under a '
                  'matrix of configurations; the bookkeeping invariant is evaluated on real SolutionContext dumps taken after every insertion.')
-MANIFEST_NOTE = ('Trusted: Coq kernel + vm_compute; JSON->Gallina rendering (cross-checked by a Python twin); harness. Fragment: no required breaks, '
-                 'recharges, relations, clustering (reloads and optional breaks are in: every reload / break activity a distinct reload / break of the tour\'s shift). Operator choice is an oracle; ruin steps are validated end-to-end only. '
+MANIFEST_NOTE = ('Trusted: Coq kernel + vm_compute; JSON->Gallina rendering (cross-checked by a Python twin); harness. Reloads, optional and required breaks, '
+                 'recharge stations and vicinity clustering are in (every reload / break / recharge stop a distinct one defined for the tour\'s shift); relations only in a small family. Operator choice is an oracle; ruin steps are validated end-to-end only. '
                  'Findings made with it (empty tour for a maxDuration vehicle; writer panic on its f64::MAX departure) are fixed '
                  'in /repo and kept as regression cases / reverse-patch mutants.')
 MANIFEST_TECHNIQUE = 'Coq proof (checker soundness/completeness + bookkeeping invariant) + verified checker run on real solver output'
